@@ -4,6 +4,9 @@
    index metadata established by the last reset / reshape line. *)
 EXTENDS KFilter, Json, IOUtils
 Rec == ndJsonDeserialize(IOEnv.TRACE)
+\* failures are also tallied (registers 21 / 22) so that the orchestrator can detect lost output lines
+Tally(r) == TLCSet(r, TLCGet(r) + 1)
+ASSUME TLCSet(21, 0) /\ TLCSet(22, 0)
 VARIABLES l, db, idx
 
 Other == [a |-> {}, b |-> {}, class |-> {}, uuid |-> {}]
@@ -62,8 +65,8 @@ JudgeSearch(r, ln) ==
                /\ r.ex = (IF res # {} THEN 1 ELSE 0)
       \* signature of an L1 failure: known structural class + whether the transcription predicts the answer
       sig   == (IF wf THEN DefectSig(r.rf, db, cf) ELSE "malformed") \o (IF l2res THEN "/l2" ELSE "/nol2")
-  IN /\ (l1 \/ PrintT(<<"L1FAIL", "C01", ln, sig>>))
-     /\ (l2 \/ PrintT(<<"L2DRIFT", "C01", ln>>))
+  IN /\ (l1 \/ (Tally(21) /\ PrintT(<<"L1FAIL", "C01", ln, sig>>)))
+     /\ (l2 \/ (Tally(22) /\ PrintT(<<"L2DRIFT", "C01", ln>>)))
 
 \* ---- C02
 \* {"a":"rewrite","f":F,"sid":n,"mode":"idx"|"noidx","ix":{key:slope},"rf":RF,"m":[ids matched by the REAL entry test on rf],"mo":o}
@@ -74,9 +77,10 @@ Judge == l <= Len(Rec) =>
   LET r == Rec[l] IN
     CASE r.a = "search" -> JudgeSearch(r, l)
       [] r.a = "rewrite" ->
-           /\ (RewriteL1(r) \/ PrintT(<<"L1FAIL", "C02", l, "rewrite-changes-meaning">>))
-           /\ (RewriteL2(r) \/ PrintT(<<"L2DRIFT", "C02", l>>))
-      [] r.a = "reset" -> (r.attrord = AttrOrder \/ PrintT(<<"L2DRIFT", "C02", l>>))
+           /\ (RewriteL1(r) \/ (Tally(21) /\ PrintT(<<"L1FAIL", "C02", l, "rewrite-changes-meaning">>)))
+           /\ (RewriteL2(r) \/ (Tally(22) /\ PrintT(<<"L2DRIFT", "C02", l>>)))
+      [] r.a = "reset" -> (r.attrord = AttrOrder \/ (Tally(22) /\ PrintT(<<"L2DRIFT", "C02", l>>)))
       [] OTHER -> TRUE
-Consumed == TLCGet("stats").distinct = Len(Rec) + 1 \/ PrintT(<<"NOTCONSUMED", TLCGet("stats").distinct, Len(Rec)>>)
+Consumed == /\ PrintT(<<"SUMMARY", TLCGet(21), TLCGet(22)>>)
+            /\ (TLCGet("stats").distinct = Len(Rec) + 1 \/ PrintT(<<"NOTCONSUMED", TLCGet("stats").distinct, Len(Rec)>>))
 =============================================================================
